@@ -18,7 +18,7 @@ from native.bounded._common import FLAGS, Checker
 from native.refinterp import ParamStore, domains_of, eval_circuit, integral_circuit
 
 BOUND = ("region graphs {RandomBinaryTree(4|5, reps 1..2), LinearTree(4), FullyFactorized(3|1), RandomBinaryTree(3, depth 0), QuadTree((1,2,2),2|4), QuadGraph((1,2,2)), "
-         "PoonDomingos((1,2,2),1)} x {cp, cp-t, tucker} x {categorical(3 states), binomial(2), gaussian} x {mixing, dense} with 2 input / 2 sum "
+         "PoonDomingos((1,2,2),1)} x {cp, cp-t, tucker} x {categorical(3 states), binomial(2), gaussian} x {mixing, dense, n-ary factory left to its default} with 2 input / 2 sum "
          "units, 1..2 classes; templates image_data((1,2,2)) with 256 categories (Z through integrate only), tabular_data(random-binary-tree, 3 "
          "features), hmm(orderings of 3 variables, 1..2 latent states), fully_factorized(3), cp/tucker probabilistic (shape (2,3,2), rank 1..3); "
          "parameters: as initialised, all unconstrained tensors x3 + shift, after 3 SGD steps on the negative log-likelihood; flags rotating; "
@@ -51,12 +51,13 @@ INPUTS = {
 
 def circuits(tier):
     n = 0
-    for (rgname, rg), spl, inp, mixing in itertools.product(_rgs(), ("cp", "cp-t", "tucker"), INPUTS, (True, False)):
+    for (rgname, rg), spl, inp, mixing in itertools.product(_rgs(), ("cp", "cp-t", "tucker"), INPUTS, (True, False, None)):
         n += 1
         if tier != "thorough" and n % 3:  # the quick tier takes every third combination
             continue
         wf = parameterization_to_factory(SOFTMAX)
-        nary = functools.partial(mixing_weight_factory, param_factory=wf) if mixing else wf
+        # mixing None: the n-ary factory is NOT passed, the documented fallback (the dense factory) must normalise the n-ary sums
+        nary = functools.partial(mixing_weight_factory, param_factory=wf) if mixing else (wf if mixing is False else None)
         kw = dict(INPUTS[inp])
         factory = name_to_input_layer_factory(inp.split("-")[0], **kw)
         yield ({"template": "RegionGraph.build_circuit", "rg": rgname, "sum_product": spl, "input": inp, "mixing": mixing},
